@@ -13,25 +13,26 @@ def readRev (R committed : Nat) : Nat := if R == 0 then committed else R
 /-- Range scan = snapshot, membership form: a kv is emitted iff it is the newest version ≤ R of its
 key and not a deletion. Holds for every sorted decoded store (no other well-formedness needed). -/
 theorem mem_scan_iff {recs : List Rec} (hs : SortedRecs recs) (R : Nat) (k v : Bytes) (r : Nat) :
-    (k, v, r) ∈ scanRecs R recs ↔ readAt R recs k = some (v, r) := by
-  sorry
+    (k, v, r) ∈ scanRecs R recs ↔ readAt R recs k = some (v, r) :=
+  mem_scanRecs_iff hs R k v r
 
 /-- ... and the result is strictly sorted by key, hence every key appears at most once. -/
 theorem scan_keys_sorted {recs : List Rec} (hs : SortedRecs recs) (R : Nat) :
-    (scanRecs R recs).Pairwise (fun a b => cmp a.1 b.1 = .lt) := by
-  sorry
+    (scanRecs R recs).Pairwise (fun a b => cmp a.1 b.1 = .lt) :=
+  scanRecs_sorted hs R
 
 /-- Re-reading an old snapshot after further writes gives the same answer: records with a
 revision above R (and index records, revision 0) are invisible to a read at R. -/
 theorem stable_reread {recs : List Rec} (R : Nat) (k : Bytes) :
     readAt R (recs.filter (fun r => decide (0 < r.rev) && decide (r.rev ≤ R))) k = readAt R recs k := by
-  sorry
+  rw [readAt_def, readAt_def, visible_filter_live]
 
 /-- Any value other than the reserved deletion marker is returned byte for byte.
 (The full statement "any non-empty value" is FALSE of the code: see `tombstone_value_lost`.) -/
 theorem value_roundtrip_partial {recs : List Rec} (R : Nat) (k : Bytes) (r : Rec)
     (h : visible R recs k = some r) (hv : r.val ≠ tombstone) : readAt R recs k = some (r.val, r.rev) := by
-  sorry
+  have ht : isTomb r.val = false := by simpa [isTomb] using hv
+  simp [readAt, h, ht]
 
 /-- Witness of the negation of the full statement (known finding): a record whose value is the
 literal bytes "tombstone" reads as absent. Replayed on the implementation on every run. -/
@@ -46,8 +47,8 @@ theorem get_spec (c : Cfg) {recs : List Rec} (hs : SortedRecs recs)
     (hk : ∀ r ∈ recs, Alphabet r.key ∧ r.rev < 2 ^ 64) (k : Bytes) (hka : Alphabet k)
     (R : Nat) (hR : R < 2 ^ 64) :
     getInternal c (encodeStore recs) k R =
-      (visible (if R == 0 then 2 ^ 64 - 1 else R) recs k).map (fun r => (r.val, r.rev)) := by
-  sorry
+      (visible (if R == 0 then 2 ^ 64 - 1 else R) recs k).map (fun r => (r.val, r.rev)) :=
+  getInternal_encodeStore c hs hk k hka R hR
 
 /-- Unlimited / limited range read through `Backend.List` on an engine with one partition:
 the kvs are the scan of exactly the records of the raw keys in `[a, b)`; with a limit the first
@@ -57,9 +58,20 @@ theorem list_spec (c : Cfg) (hsplit : c.splits = []) (s : BState) {recs : List R
     (hk : ∀ r ∈ recs, Alphabet r.key ∧ r.rev < 2 ^ 64)
     (a b : Bytes) (ha : Alphabet a) (hb : Alphabet b) (hab : cmp a b = .lt) (R n : Nat) :
     let full := scanRecs (readRev R s.committed) (recs.filter (fun r => ble a r.key && blt r.key b))
-    ∃ res, doList c s a b R n = .ok res ∧ res.hdr = s.committed ∧
+    ∃ res, doList c s a b R n = .ok res ∧ res.hdr = hdrOf s.committed res.kvs ∧
       res.kvs = (if n = 0 then full else full.take n) ∧ (res.more = true ↔ (0 < n ∧ n < full.length)) := by
-  sorry
+  intro full
+  have _ := hs  -- sortedness is not needed for this equation (kept in the statement for uniformity)
+  have hfull : full = scanRecs (if R == 0 then s.committed else R) (recs.filter (inRange a b)) := rfl
+  by_cases hn : n = 0
+  · subst hn
+    refine ⟨_, doList_unlimited c hsplit s hstore hk ha hb hab R, rfl, ?_, ?_⟩
+    · simp [hfull]
+    · simp
+  · have hpos : 0 < n := by omega
+    refine ⟨_, doList_limited c s hstore hk ha hb hab R hpos, rfl, ?_, ?_⟩
+    · simp [hn, hfull]
+    · simp [hpos, hfull]
 
 /-- Count = number of kvs of the unlimited read at the committed revision. -/
 theorem count_spec (c : Cfg) (hsplit : c.splits = []) (hcompat : c.etcdCompat = true) (s : BState)
@@ -68,7 +80,8 @@ theorem count_spec (c : Cfg) (hsplit : c.splits = []) (hcompat : c.etcdCompat = 
     (a b : Bytes) (ha : Alphabet a) (hb : Alphabet b) (hab : cmp a b = .lt) :
     doCount c s a b = .ok (s.committed,
       (scanRecs s.committed (recs.filter (fun r => ble a r.key && blt r.key b))).length) := by
-  sorry
+  have _ := hs  -- not needed for this equation
+  exact doCount_encodeStore c hsplit hcompat s hstore hk ha hb hab
 
 /-! Non-vacuity: a sorted store with prefix-related keys, an index record, a tombstone. -/
 def exRecs : List Rec :=
